@@ -3,7 +3,7 @@
 set -e
 cd /verif/coq
 [ -f Makefile ] && [ Makefile -nt _CoqProject ] || coq_makefile -f _CoqProject -o Makefile >/dev/null
-timeout 3000 make -j16 "$@"
+timeout 3000 make -j16 theories/Entry.vo "$@"
 mkdir -p /verif/ocaml/build && cd /verif/ocaml/build
 if [ ! -x modelrun ] || [ -n "$(find /verif/coq/theories /verif/coq/Extract.v /verif/ocaml/main.ml -newer modelrun 2>/dev/null | head -1)" ]; then
   timeout 600 coqc -Q /verif/coq/theories RainV /verif/coq/Extract.v >/dev/null
